@@ -21,12 +21,18 @@ TRUSTED = ["z3 5.1", "CrossHair 0.0.110", "numpy dtype comparison"]
 
 def obligations(tier):
     to = 300 if tier == "quick" else 900
-    variants = ["image.15.n2", "image.11.n2", "leader.utm", "leader.nomp", "volume.fp3"] if tier == "quick" else \
+    variants = ["image.15.n2", "image.11.n2", "image.11.n1", "leader.utm", "leader.nomp", "leader.small", "volume.fp3"] if tier == "quick" else \
         ["image.15.n2", "image.15.n3", "image.11.n2", "image.11.n1", "leader.utm", "leader.ups", "leader.lcc", "leader.mer", "leader.nomp", "leader.small", "leader.big", "volume.fp0", "volume.fp3"]
     return [
         Ob("C12.declared", "X", "the lazy image variable advertises an np.dtype instance equal (up to byte order) to what a load produces, of kind u/c, and the header shape",
            ["ceos_alos2.xarray:LazilyIndexedWrapper.__init__", "ceos_alos2.array:Array.__post_init__", "ceos_alos2.array:parse_data", "ceos_alos2.sar_image.metadata:dtypes"],
            bounds="forall lines, pixels, records_per_chunk >= 1 (unbounded); both type codes", harness="harness/h_types.py", func="declared_ok", timeout=to),
+        Ob("C12.open", "X", "the advertised image shape is (number_of_lines_per_dataset, number_of_data_groups_per_line) of the header - no other header field "
+           "(border pixels/lines, blank or filled) enters it - and a full load returns exactly that many lines, each with its data bytes",
+           ["ceos_alos2.sar_image:open_image", "ceos_alos2.sar_image.metadata:transform_metadata", "ceos_alos2.sar_image.metadata:extract_shape",
+            "ceos_alos2.array:Array.__getitem__"], bounds="forall 12<=H<L, pixels>=1; n in 0..3, rpc in 1..3; every other field of the header section blank or arbitrary",
+           harness="harness/h_image.py", func="open_ok", params={"ns": [0, 1, 2, 3], "rpcs": [1, 2, 3], "type_code": "IU2", "imgname": "IMG-HH-ALOS2290760600-191011-WBDR1.5GUD"},
+           timeout=to),
         Ob("C12.adapter", "X", "what a load returns is exactly what the backend array returned for the key xarray's adapter produced (no re-wrapping that could change rank, "
            "shape or dtype): advertised shape = loaded shape for every selection the adapter can produce",
            ["ceos_alos2.xarray:LazilyIndexedWrapper.__getitem__", "ceos_alos2.xarray:LazilyIndexedWrapper._raw_indexing_method"],
